@@ -543,8 +543,11 @@ impl Color {
 
     /// Rotate along the "hue" axis.
     pub fn rotate_hue(&self, delta: Scalar) -> Color {
+        // Reduce the angle to less than one turn first (`%` is exact): adding a huge angle to
+        // the hue would otherwise round the hue away, and e.g. 1e16 whole turns would not be
+        // the identity.
         Self::from_hsla(
-            self.hue.value() + delta,
+            self.hue.value() + delta % 360.0,
             self.saturation,
             self.lightness,
             self.alpha,
